@@ -1,4 +1,153 @@
-(* placeholder until C09/Proofs.v lands: nothing is claimed proved yet *)
-From V Require Import C09.Glue.
-Theorem c09_placeholder : True. Proof. exact I. Qed.
-Print Assumptions c09_placeholder.
+(* C09 - W3C trace-context propagation: the property theorems, stated in full about the
+   executable model (coq/C09/Model.v over coq/C14/Model.v) and the positional grammar of
+   coq/C09/Spec.v.  Proofs are in coq/C09/Proofs*.v; nothing here but statements. *)
+From V Require Import C09.Glue C09.ProofsHex C09.ProofsSplit C09.ProofsExtract C09.ProofsInject C09.ProofsMeets.
+
+(* --- sentence 1a: injecting any valid span context (16-byte trace id, 8-byte span id, any flags
+   byte) writes a traceparent of exactly the level-1 form - 55 bytes, "00-", dashes at 2/35/52,
+   32+16+2 LOWER-case hex digits ([shape_ok]) - that decodes to the same ids and flags, and the
+   tracestate header iff ToHeader is non-empty.  The flags digits come from the table that
+   tools/extract_consts.py reads out of trace_flags.h (Gen.Consts.kFlagsHexTable). *)
+Theorem inject_shape : forall c : span_ctx,
+  length (c_tid c) = 16 /\ length (c_sid c) = 8 -> ctx_valid c = true ->
+  exists tp, inject c = Some (tp, if is_nil (to_header (c_ts c)) then None else Some (to_header (c_ts c))) /\
+             shape_ok tp = true /\
+             wf_traceparent tp = Some (c_tid c, c_sid c, c_flags c).
+Proof. exact ProofsInject.inject_shape. Qed.
+Print Assumptions inject_shape.
+
+Theorem inject_tracestate : forall l : tstate,
+  (l = [] -> (if is_nil (to_header l) then None else Some (to_header l)) = None) /\
+  (l <> [] -> (if is_nil (to_header l) then None else Some (to_header l)) = Some (to_header l)).
+Proof. exact ProofsInject.inject_tracestate. Qed.
+Print Assumptions inject_tracestate.
+
+(* the digit table of the code is the lower-case one, for all 256 flag bytes *)
+Theorem flags_table_lower_case : forall f : byte, flags_hex f = byte_to_lower_hex f.
+Proof. exact flags_hex_is_lower_hex. Qed.
+Print Assumptions flags_table_lower_case.
+
+(* --- sentence 1b: extracting the injected headers yields a remote context with the same trace id,
+   span id, flags byte; its trace state is the re-parsed ToHeader rendering ... *)
+Theorem inject_extract_roundtrip : forall c : span_ctx,
+  length (c_tid c) = 16 /\ length (c_sid c) = 8 -> ctx_valid c = true ->
+  exists tp ts, inject c = Some (tp, ts) /\
+    extract tp (match ts with Some h => h | None => [] end) =
+    Some (mk_ctx (c_tid c) (c_sid c) (c_flags c) true (from_header (to_header (c_ts c)))).
+Proof. exact ProofsInject.inject_extract_roundtrip. Qed.
+Print Assumptions inject_extract_roundtrip.
+
+(* ... which is the same trace state whenever C14's header round trip holds for it *)
+Theorem inject_extract_roundtrip_ts : forall c : span_ctx,
+  length (c_tid c) = 16 /\ length (c_sid c) = 8 -> ctx_valid c = true ->
+  from_header (to_header (c_ts c)) = c_ts c ->
+  exists tp ts, inject c = Some (tp, ts) /\
+    extract tp (match ts with Some h => h | None => [] end) =
+    Some (mk_ctx (c_tid c) (c_sid c) (c_flags c) true (c_ts c)).
+Proof. exact ProofsInject.inject_extract_roundtrip_ts. Qed.
+Print Assumptions inject_extract_roundtrip_ts.
+
+(* --- sentence 2: for EVERY pair of byte strings the split-based parser of the code decides exactly
+   the positional W3C grammar (after trimming white space) and decodes the same fields:
+   soundness and completeness in one equation *)
+Theorem extract_eq_spec : forall tp_raw ts_raw : bytes, extract tp_raw ts_raw = spec_extract tp_raw ts_raw.
+Proof. exact ProofsExtract.extract_eq_spec. Qed.
+Print Assumptions extract_eq_spec.
+
+Theorem extract_sound : forall (tp_raw ts_raw : bytes) (c : span_ctx), extract tp_raw ts_raw = Some c ->
+  exists t s f, wf_traceparent (trim_ws tp_raw) = Some (t, s, f) /\ c = mk_ctx t s f true (from_header ts_raw).
+Proof. exact ProofsExtract.extract_sound. Qed.
+Print Assumptions extract_sound.
+
+Theorem extract_complete : forall (tp_raw ts_raw t s : bytes) (f : byte),
+  wf_traceparent (trim_ws tp_raw) = Some (t, s, f) ->
+  extract tp_raw ts_raw = Some (mk_ctx t s f true (from_header ts_raw)).
+Proof. exact ProofsExtract.extract_complete. Qed.
+Print Assumptions extract_complete.
+
+(* --- sentence 3: in every other case nothing is installed and the caller's context is returned;
+   whatever is installed is valid and remote with 16/8-byte ids; an invalid context is never injected *)
+Theorem extract_invalid_is_none : forall tp_raw ts_raw : bytes,
+  wf_traceparent (trim_ws tp_raw) = None -> extract tp_raw ts_raw = None.
+Proof. exact ProofsExtract.extract_invalid_is_none. Qed.
+Print Assumptions extract_invalid_is_none.
+
+Theorem extract_invalid_is_identity :
+  forall (Ctx : Type) (set_span : Ctx -> span_ctx -> Ctx) (caller : Ctx) (tp_raw ts_raw : bytes),
+  wf_traceparent (trim_ws tp_raw) = None -> extract_into set_span caller tp_raw ts_raw = caller.
+Proof. exact ProofsInject.extract_invalid_is_identity. Qed.
+Print Assumptions extract_invalid_is_identity.
+
+Theorem invalid_never_installed :
+  forall (Ctx : Type) (set_span : Ctx -> span_ctx -> Ctx) (caller : Ctx) (tp_raw ts_raw : bytes),
+  extract_into set_span caller tp_raw ts_raw = caller \/
+  exists c, extract_into set_span caller tp_raw ts_raw = set_span caller c /\
+            ctx_valid c = true /\ c_remote c = true /\ (length (c_tid c) = 16 /\ length (c_sid c) = 8).
+Proof. exact ProofsInject.invalid_never_installed. Qed.
+Print Assumptions invalid_never_installed.
+
+Theorem extract_installs_only_valid : forall (tp_raw ts_raw : bytes) (c : span_ctx),
+  extract tp_raw ts_raw = Some c ->
+  ctx_valid c = true /\ c_remote c = true /\ length (c_tid c) = 16 /\ length (c_sid c) = 8 /\
+  c_ts c = from_header ts_raw.
+Proof. exact ProofsExtract.extract_installs_only_valid. Qed.
+Print Assumptions extract_installs_only_valid.
+
+Theorem invalid_never_injected : forall c : span_ctx, ctx_valid c = false -> inject c = None.
+Proof. exact ProofsInject.invalid_never_injected. Qed.
+Print Assumptions invalid_never_injected.
+
+Theorem invalid_never_injected_into : forall (car : list (bytes * bytes)) (c : span_ctx),
+  ctx_valid c = false -> inject_into car c = car.
+Proof. exact ProofsInject.invalid_never_injected_into. Qed.
+Print Assumptions invalid_never_injected_into.
+
+(* --- hex facts and index safety of the model's arithmetic *)
+Theorem hex_roundtrip : forall (b : bytes) (n : nat), length b = n -> hex_to_binary (to_lower_hex b) n = b.
+Proof. exact hex_to_binary_to_lower_hex. Qed.
+Print Assumptions hex_roundtrip.
+
+Theorem hex_table_is_model : forall b : byte, nth (N.to_nat (b2n b)) kHexDigits 0%Z = hexint b.
+Proof. exact kHexDigits_is_hexint. Qed.
+Print Assumptions hex_table_is_model.
+
+Theorem hex_to_binary_index_safe : forall (s : bytes) (n : nat), length (hex_to_binary s n) = n.
+Proof. exact ProofsHex.hex_to_binary_index_safe. Qed.
+Print Assumptions hex_to_binary_index_safe.
+
+Theorem split_index_safe : forall (s : bytes) (n : nat),
+  length (split_string s dash n) <= n /\
+  (0 < n -> 0 < length (split_string s dash n)) /\
+  Forall (fun f => forallb (fun b => negb (Byte.eqb b dash)) f = true /\ length f <= length s) (split_string s dash n).
+Proof. exact ProofsSplit.split_index_safe. Qed.
+Print Assumptions split_index_safe.
+
+(* --- the model meets every SPEC clause the runner evaluates on the implementation's observations *)
+Theorem inject_meets_spec : forall c : span_ctx,
+  length (c_tid c) = 16 /\ length (c_sid c) = 8 -> spec_inject_ok c (inject c) = [].
+Proof. exact ProofsMeets.inject_meets_spec. Qed.
+Print Assumptions inject_meets_spec.
+
+Theorem extract_meets_spec : forall tp ts : bytes, spec_extract_ok tp ts (extract tp ts) true = [].
+Proof. exact ProofsMeets.extract_meets_spec. Qed.
+Print Assumptions extract_meets_spec.
+
+Theorem roundtrip_meets_spec : forall c : span_ctx,
+  length (c_tid c) = 16 /\ length (c_sid c) = 8 -> from_header (to_header (c_ts c)) = c_ts c ->
+  spec_roundtrip_ok c (let car := inject_into [] c in
+                       extract (carrier_get "traceparent" car) (carrier_get "tracestate" car)) true = [].
+Proof. exact ProofsMeets.roundtrip_meets_spec. Qed.
+Print Assumptions roundtrip_meets_spec.
+
+(* through the wire format, for every case line that parses; parametric in the C14 fact that a
+   parsed trace state survives ToHeader/FromHeader *)
+Theorem model_meets_spec_param :
+  (forall h : bytes, from_header (to_header (from_header h)) = from_header h) ->
+  forall l : list tok, parse_case l <> None -> run_spec l (run_model l) = [].
+Proof. exact ProofsMeets.model_meets_spec_param. Qed.
+Print Assumptions model_meets_spec_param.
+
+Theorem model_meets_spec_inj : forall (l : list tok) (c : span_ctx),
+  parse_case l = Some (CInj c) -> run_spec l (run_model l) = [].
+Proof. exact ProofsMeets.model_meets_spec_inj. Qed.
+Print Assumptions model_meets_spec_inj.
